@@ -481,7 +481,6 @@ class WBEMSubscriptionManager:
                 inst = inst_list[i]
                 server.conn.DeleteInstance(inst.path)
                 del inst_list[i]
-            del self._owned_subscriptions[server_id]
 
         if server_id in self._owned_filters:
             inst_list = self._owned_filters[server_id]
@@ -490,7 +489,6 @@ class WBEMSubscriptionManager:
                 inst = inst_list[i]
                 server.conn.DeleteInstance(inst.path)
                 del inst_list[i]
-            del self._owned_filters[server_id]
 
         if server_id in self._owned_destinations:
             inst_list = self._owned_destinations[server_id]
@@ -499,9 +497,14 @@ class WBEMSubscriptionManager:
                 inst = inst_list[i]
                 server.conn.DeleteInstance(inst.path)
                 del inst_list[i]
-            del self._owned_destinations[server_id]
 
-        # Remove server from this listener
+        # Forget the server only now that all of its owned instances have
+        # been deleted, so that a failed deletion (e.g. of a filter that is
+        # still referenced by the subscription of somebody else) leaves the
+        # server registered with consistent lists of owned instances.
+        self._owned_subscriptions.pop(server_id, None)
+        self._owned_filters.pop(server_id, None)
+        self._owned_destinations.pop(server_id, None)
         del self._servers[server_id]
 
     def remove_all_servers(self):
